@@ -304,6 +304,114 @@ ASSUME \A l \in SettingLists : LET r == SListImpl(l) IN r.handled = SListExpect(
 ASSUME Emit => \A l \in SettingLists : \A tg \in {"server-conn", "client-conn"} :
   PrintT(<<"CASE", ToJson([kind |-> "slist", target |-> tg, items |-> l, expect |-> SListExpect(l)])>>)
 
+(* ------------------------------------------------------------------ frames that are well-formed but illegal in the state of
+   their stream (RFC 7540 5.1, 5.1.1, 6.1-6.10, 8.1).  A case is a legal prefix that brings stream 1 into a state, then one
+   test frame; the connection object answers the test frame with
+     "ok"            accepted or ignored, the connection goes on
+     "stream-error"  RST_STREAM for that stream, the connection goes on
+     "conn-error"    GOAWAY / the connection is given up
+   and nothing else: no panic, no endless loop, and the PROCESS survives (a runtime fatal error - double unlock,
+   concurrent map write - is not recoverable by the read loop).  Unless the answer was a connection error the
+   connection must serve the next request.
+   Steps: [op, sid, end, n]; incoming frames H (request/response HEADERS), T (HEADERS with regular fields only = trailers),
+   HO (HEADERS without END_HEADERS), D, W, R, P, C, PP; local actions resp (server sends the response on sid),
+   req (client opens stream sid with a request).
+   Defects (TLC must reject each):
+     "DataOnClosedAccepted"  DATA for a stream that is not open is taken as body
+     "FatalOnClosedData"     the branch for DATA on a stream that is no longer open breaks the process (e.g. unlocks twice) *)
+St(op, sid, end, n) == [op |-> op, sid |-> sid, end |-> end, n |-> n]
+Refused == {"stream-error", "conn-error"}
+NonFatal == {"ok", "stream-error", "conn-error"}
+
+ServerStates == [
+  idle           |-> <<>>,
+  open           |-> <<St("H", 1, FALSE, 0)>>,
+  hcr            |-> <<St("H", 1, TRUE, 0)>>,
+  hcr_data       |-> <<St("H", 1, FALSE, 0), St("D", 1, TRUE, 5)>>,
+  hcr_trailers   |-> <<St("H", 1, FALSE, 0), St("T", 1, TRUE, 0)>>,
+  closed_resp    |-> <<St("H", 1, TRUE, 0), St("resp", 1, TRUE, 0)>>,
+  reset_peer     |-> <<St("H", 1, FALSE, 0), St("R", 1, FALSE, 0)>> ]
+
+TestFrames == [
+  D0 |-> St("D", 1, FALSE, 0), D5 |-> St("D", 1, FALSE, 5), D5end |-> St("D", 1, TRUE, 5),
+  Hend |-> St("H", 1, TRUE, 0), Hopen |-> St("H", 1, FALSE, 0), T |-> St("T", 1, TRUE, 0),
+  C |-> St("C", 1, TRUE, 0), W |-> St("W", 1, FALSE, 1), R |-> St("R", 1, FALSE, 0), P |-> St("P", 1, FALSE, 0) ]
+
+IsData(fn) == fn \in {"D0", "D5", "D5end"}
+HalfClosed(sn) == sn \in {"hcr", "hcr_data", "hcr_trailers"}
+Gone(sn) == sn \in {"closed_resp", "reset_peer"}
+
+(* RFC 7540 5.1 for a server; where the RFC leaves a choice (frames shortly after a stream was closed) every non-fatal answer *)
+ServerAllowed(sn, fn) ==
+  CASE fn = "P" -> {"ok"}
+    [] fn = "C" -> Refused                                              \* no header block is open
+    [] sn = "idle" -> (IF fn \in {"Hend", "Hopen"} THEN {"ok"}
+                       ELSE IF fn = "W" THEN NonFatal      \* RFC: connection error; the code ignores a WINDOW_UPDATE for a stream it does not know (harmless)
+                       ELSE Refused)
+    [] sn = "open" -> (CASE IsData(fn) -> {"ok"} [] fn = "T" -> {"ok"} [] fn = "W" -> {"ok"}
+                         [] fn = "R" -> {"ok", "stream-error"}          \* the reset is handed upwards as a stream error
+                         [] OTHER -> Refused)                           \* a second HEADERS with pseudo-headers
+    [] HalfClosed(sn) -> (CASE fn = "W" -> {"ok"} [] fn = "R" -> {"ok", "stream-error"} [] OTHER -> Refused)
+    [] Gone(sn) -> (CASE IsData(fn) -> IF "DataOnClosedAccepted" \in Defects THEN {"ok"} ELSE NonFatal
+                      [] fn \in {"Hend", "Hopen", "T"} -> Refused
+                      [] OTHER -> NonFatal)
+
+SC(name, target, steps, allowed) == [name |-> name, target |-> target, steps |-> steps, allowed |-> allowed]
+StateNames == {"idle", "open", "hcr", "hcr_data", "hcr_trailers", "closed_resp", "reset_peer"}
+FrameNames == {"D0", "D5", "D5end", "Hend", "Hopen", "T", "C", "W", "R", "P"}
+
+ServerSeqCases ==
+  { SC(sn \o "/" \o fn, "server-conn", Append(ServerStates[sn], TestFrames[fn]), ServerAllowed(sn, fn)) : sn \in StateNames, fn \in FrameNames }
+  \cup {
+    SC("stream0/D", "server-conn", <<St("D", 0, FALSE, 5)>>, Refused), SC("stream0/H", "server-conn", <<St("H", 0, TRUE, 0)>>, Refused),
+    SC("stream0/R", "server-conn", <<St("R", 0, FALSE, 0)>>, Refused), SC("stream0/P", "server-conn", <<St("P", 0, FALSE, 0)>>, Refused),
+    SC("stream0/C", "server-conn", <<St("C", 0, TRUE, 0)>>, Refused),  SC("stream0/W", "server-conn", <<St("W", 0, FALSE, 1)>>, {"ok"}),
+    SC("even-id/H", "server-conn", <<St("H", 2, TRUE, 0)>>, Refused),
+    SC("lower-id/H", "server-conn", <<St("H", 3, TRUE, 0), St("H", 1, TRUE, 0)>>, Refused),
+    SC("next-id/H", "server-conn", <<St("H", 1, TRUE, 0), St("resp", 1, TRUE, 0), St("H", 3, TRUE, 0)>>, {"ok"}),
+    SC("block-open/H", "server-conn", <<St("HO", 1, TRUE, 0), St("H", 3, TRUE, 0)>>, Refused),
+    SC("block-open/D", "server-conn", <<St("HO", 1, FALSE, 0), St("D", 1, FALSE, 5)>>, Refused),
+    SC("block-open/P", "server-conn", <<St("HO", 1, TRUE, 0), St("P", 1, FALSE, 0)>>, Refused),
+    SC("block-open/C", "server-conn", <<St("HO", 1, TRUE, 0), St("C", 1, TRUE, 0)>>, {"ok"}),
+    SC("two-streams/D-on-closed", "server-conn", <<St("H", 1, TRUE, 0), St("H", 3, FALSE, 0), St("D", 1, FALSE, 5)>>, Refused),
+    SC("push-promise", "server-conn", <<St("PP", 1, FALSE, 0)>>, Refused) }
+
+(* the client-side connection: what an upstream may send for streams MOSN opened, closed, or never opened *)
+ClientSeqCases == {
+    SC("none/H", "client-conn", <<St("H", 1, TRUE, 0)>>, NonFatal),     SC("none/D", "client-conn", <<St("D", 1, FALSE, 5)>>, Refused),
+    SC("none/W", "client-conn", <<St("W", 1, FALSE, 1)>>, NonFatal),    SC("none/R", "client-conn", <<St("R", 1, FALSE, 0)>>, NonFatal),
+    SC("none/PP", "client-conn", <<St("PP", 1, FALSE, 0)>>, Refused),   SC("none/H-even", "client-conn", <<St("H", 2, TRUE, 0)>>, NonFatal),
+    SC("none/D-even", "client-conn", <<St("D", 2, FALSE, 5)>>, Refused), SC("none/C", "client-conn", <<St("C", 1, TRUE, 0)>>, Refused),
+    SC("sent/H", "client-conn", <<St("req", 1, TRUE, 0), St("H", 1, FALSE, 0)>>, {"ok"}),
+    SC("sent/Hend", "client-conn", <<St("req", 1, TRUE, 0), St("H", 1, TRUE, 0)>>, {"ok"}),
+    SC("sent/D-before-headers", "client-conn", <<St("req", 1, TRUE, 0), St("D", 1, FALSE, 5)>>, Refused),
+    SC("sent/W", "client-conn", <<St("req", 1, TRUE, 0), St("W", 1, FALSE, 1)>>, {"ok"}),
+    SC("sent/R", "client-conn", <<St("req", 1, TRUE, 0), St("R", 1, FALSE, 0)>>, {"ok", "stream-error"}),
+    SC("sent/PP", "client-conn", <<St("req", 1, TRUE, 0), St("PP", 1, FALSE, 0)>>, Refused),
+    SC("sent/D-other-stream", "client-conn", <<St("req", 1, TRUE, 0), St("D", 3, FALSE, 5)>>, Refused),
+    SC("answering/D", "client-conn", <<St("req", 1, TRUE, 0), St("H", 1, FALSE, 0), St("D", 1, FALSE, 5)>>, {"ok"}),
+    SC("answering/Dend", "client-conn", <<St("req", 1, TRUE, 0), St("H", 1, FALSE, 0), St("D", 1, TRUE, 5)>>, {"ok"}),
+    SC("answering/T", "client-conn", <<St("req", 1, TRUE, 0), St("H", 1, FALSE, 0), St("T", 1, TRUE, 0)>>, {"ok"}),
+    SC("answering/H-second-open", "client-conn", <<St("req", 1, TRUE, 0), St("H", 1, FALSE, 0), St("T", 1, FALSE, 0)>>, Refused),
+    SC("answered/D", "client-conn", <<St("req", 1, TRUE, 0), St("H", 1, TRUE, 0), St("D", 1, FALSE, 5)>>, NonFatal),
+    SC("answered/D0", "client-conn", <<St("req", 1, TRUE, 0), St("H", 1, TRUE, 0), St("D", 1, FALSE, 0)>>, NonFatal),
+    SC("answered/H", "client-conn", <<St("req", 1, TRUE, 0), St("H", 1, TRUE, 0), St("H", 1, TRUE, 0)>>, NonFatal),
+    SC("answered/W", "client-conn", <<St("req", 1, TRUE, 0), St("H", 1, TRUE, 0), St("W", 1, FALSE, 1)>>, NonFatal),
+    SC("answered/R", "client-conn", <<St("req", 1, TRUE, 0), St("H", 1, TRUE, 0), St("R", 1, FALSE, 0)>>, NonFatal),
+    SC("answered/PP", "client-conn", <<St("req", 1, TRUE, 0), St("H", 1, TRUE, 0), St("PP", 1, FALSE, 0)>>, Refused) }
+
+SeqCases == ServerSeqCases \cup ClientSeqCases
+
+(* the server's DATA handling in the shape of the code: the branch for a stream that is no longer open *)
+SeqImplDataGone == IF "FatalOnClosedData" \in Defects THEN "fatal" ELSE "stream-error"
+ASSUME \A c \in ServerSeqCases : c.allowed # {} /\ c.allowed \subseteq NonFatal
+ASSUME \A sn \in {"hcr", "hcr_data", "hcr_trailers", "closed_resp", "reset_peer"} : \A fn \in {"D0", "D5", "D5end"} :
+         SeqImplDataGone \in ServerAllowed(sn, fn) /\ (HalfClosed(sn) => "ok" \notin ServerAllowed(sn, fn))
+
+SetToSeq(S) == CHOOSE q \in [1..Cardinality(S) -> S] : \A i, j \in 1..Cardinality(S) : i # j => q[i] # q[j]
+ASSUME Emit => \A c \in SeqCases :
+  PrintT(<<"CASE", ToJson([kind |-> "seq", name |-> c.name, target |-> c.target, steps |-> c.steps, allowed |-> SetToSeq(c.allowed)])>>)
+
 (* ------------------------------------------------------------------ the machine: one case, one call *)
 VARIABLES kind, frames, reps, n, pc, res
 vars == <<kind, frames, reps, n, pc, res>>
